@@ -5,6 +5,7 @@ open Lean PolyplyVerif PolyplyVerif.Excl
 /-! Requests:
 `{"op":"tag","excls":[..]}` → `tagExclusions`;
 `{"op":"expand","nrexcl":m,"tags":[[atom,e]..],"edges":[[u,v]..]}` → `expandExcl`;
+`{"op":"neighborhood","edges":[..],"source":a,"max":k,"min":m}` → `neighborhood`;
 `{"op":"spec","atoms":[..],"e":[[atom,e]..],"edges":[..],"nrexcl":m,"listed":[[a,b]..]}` →
 `specPairs` (what the property wants excluded by distance) and `effectivePairs` (what the written
 molecule excludes). -/
@@ -34,6 +35,13 @@ def handle (j : Json) : Except String Json := do
     let tags ← (← arrOf (← j.getObjVal? "tags")).mapM pairOf
     let edges ← (← arrOf (← j.getObjVal? "edges")).mapM canonPairOf
     pure (okJson [("generated", pairsToJson (expandExcl ⟨nrexcl, tags, edges⟩))])
+  | "neighborhood" =>
+    -- `graph_utils.neighborhood(graph, source, max_length, min_length)`
+    let edges ← (← arrOf (← j.getObjVal? "edges")).mapM canonPairOf
+    let a ← (← j.getObjVal? "source").getNat?
+    let maxL ← (← j.getObjVal? "max").getNat?
+    let minL ← (← j.getObjVal? "min").getNat?
+    pure (okJson [("nodes", toJson (neighborhood edges a maxL minL))])
   | "spec" =>
     let atoms ← (← arrOf (← j.getObjVal? "atoms")).mapM (·.getNat?)
     let e ← (← arrOf (← j.getObjVal? "e")).mapM pairOf
